@@ -15,6 +15,7 @@ Definition real_value (c : case) : res R :=
   | CMI X Y _ _ => Ok (miR sym_dec sym_dec X Y)
   | CACE rows _ _ => Ok (aceR rows)
   | CAMI rows d _ _ => amiR rows d
+  | CSeq _ => Raise OtherError      (* sequences: see check_seq_sound *)
   end.
 
 (* the inputs the model is about: non-empty aligned sequences, automata with a row and a column *)
@@ -24,22 +25,40 @@ Definition wf (c : case) : Prop :=
   | CJoint X Y _ _ | CMI X Y _ _ => X <> [] /\ length X = length Y
   | CACE rows _ _ => (0 < nrows rows)%nat /\ (0 < ncols rows)%nat
   | CAMI rows _ _ _ => (0 < ncols rows)%nat
+  | CSeq _ => False                 (* sequences: see check_seq_sound *)
   end.
 
 Lemma model_out_encloses c : wf c ->
-  match model_out c, real_value c with
+  match model_out1 c, real_value c with
   | Ok (_, iv), Ok x => contains (I.convert iv) (Xreal x)
   | Raise e, Raise e' => e = e'
   | _, _ => False
   end.
 Proof.
-  destruct c as [s ref o|X Y ref o|X Y ref o|rows ref o|rows d ref o]; cbn [wf model_out real_value].
+  destruct c as [s ref o|X Y ref o|X Y ref o|rows ref o|rows d ref o|steps]; cbn [wf model_out1 real_value]; [| | | | |contradiction].
   - intros Hne. apply shannonI_ok; [apply tab80_ok|exact Hne].
   - intros [Hne Hlen]. apply jointI_ok; [apply tab80_ok|exact Hne|exact Hlen].
   - intros [Hne Hlen]. apply miI_ok; [apply tab80_ok|exact Hne|exact Hlen].
   - intros [HT HN]. apply aceI_ok; [apply tab80_ok|exact HT|exact HN].
   - intros HN. pose proof (amiI_ok prec80 tab80 tab80_ok rows d HN) as Hok.
     unfold amiI, amiR in *. destruct (ami_cells rows d) as [cells|e]; [exact Hok|exact Hok].
+Qed.
+
+Definition sound1 (c : case) : Prop :=
+  match observed c, real_value c with
+  | Ok (Some (m, e)), Ok x => Rabs (x - dblR m e) <= / IZR (2 ^ 30)
+  | Raise e, Raise e' => e = e'
+  | _, _ => False
+  end.
+
+Lemma check1_sound c : wf c -> check1 c = true -> sound1 c.
+Proof.
+  unfold sound1. intros Hwf Hchk. pose proof (model_out_encloses c Hwf) as Henc. unfold check1 in Hchk.
+  destruct (model_out1 c) as [[cells iv]|e]; destruct (real_value c) as [x|e']; try contradiction.
+  - destruct (observed c) as [[[m ex]|]|f]; try discriminate Hchk.
+    apply andb_prop in Hchk as [_ Hw]. apply (within_sound prec80 iv m ex x Henc Hw).
+  - destruct (observed c) as [v|f]; [discriminate Hchk|]. subst e'.
+    destruct e, f; try discriminate Hchk; reflexivity.
 Qed.
 
 Theorem check_case_sound c : wf c -> check_case c = true ->
@@ -49,10 +68,13 @@ Theorem check_case_sound c : wf c -> check_case c = true ->
   | _, _ => False
   end.
 Proof.
-  intros Hwf Hchk. pose proof (model_out_encloses c Hwf) as Henc. unfold check_case in Hchk.
-  destruct (model_out c) as [[cells iv]|e]; destruct (real_value c) as [x|e']; try contradiction.
-  - destruct (observed c) as [[[m ex]|]|f]; try discriminate Hchk.
-    apply andb_prop in Hchk as [_ Hw]. apply (within_sound prec80 iv m ex x Henc Hw).
-  - destruct (observed c) as [v|f]; [discriminate Hchk|]. subst e'.
-    destruct e, f; try discriminate Hchk; reflexivity.
+  intros Hwf Hchk. apply (check1_sound c Hwf). destruct c; try exact Hchk. contradiction.
+Qed.
+
+(* a passing sequence: every call of it is sound for the contents of the array at the time of that call *)
+Theorem check_seq_sound steps : Forall (fun s => wf (step_case s)) steps -> check_case (CSeq steps) = true ->
+  Forall (fun s => sound1 (step_case s)) steps.
+Proof.
+  cbn [check_case]. intros Hwf Hchk. rewrite forallb_forall in Hchk. rewrite Forall_forall in *.
+  intros s Hs. apply check1_sound; [apply Hwf; exact Hs|apply Hchk; exact Hs].
 Qed.
